@@ -1,7 +1,6 @@
 package props
 
 import (
-	"bytes"
 	"fmt"
 	"io"
 	"strings"
@@ -57,12 +56,13 @@ type c10Route struct {
 }
 
 func viaTo(f func(w io.Writer) error) (string, error) {
-	var b bytes.Buffer
-	err := f(&b)
+	// the destination's dynamic type rotates: nothing a renderer writes may depend on it
+	destSeq++
+	out, err := renderInto(destSeq, f)
 	if err != nil {
 		return "", err
 	}
-	return b.String(), nil
+	return out, nil
 }
 
 func c10Targets() []c10Target {
@@ -238,6 +238,7 @@ func c10Run(c *Ctx, i int, r *gen.R) {
 	}
 	cs := &c10Case{Table: spec}
 	c.Case = cs
+	destDir, destSeq = c.OutDir, i
 	paths := c10Paths()
 	targets := c10Targets()
 	c.Rec.Eval(gen.Hash64(spec.Shape(), fmt.Sprint(spec.HeaderTexts()), fmt.Sprint(textsOf(&spec))), spec.NCols() > 0 && spec.NBody() > 0)
